@@ -21,6 +21,7 @@ pub fn gen_cfg(tier: Tier) -> GenCfg {
     cfg.restart_policies = vec![];
     cfg.w_restart = 5;
     cfg.w_len.huge = 0;
+    cfg.w_aligned_batch = 4;
     cfg.w_len.fileish = 10;
     cfg
 }
@@ -124,7 +125,7 @@ impl Property for C02 {
 
     fn cases(&self, tier: Tier) -> u32 {
         match tier {
-            Tier::Quick => 1_600,
+            Tier::Quick => 1_200,
             Tier::Thorough => 40_000,
         }
     }
@@ -261,8 +262,27 @@ impl Property for C02 {
                     ));
                 }
             } else {
+                // cheap form of "further restarts behave as on a log that never crashed": a plain second restart of
+                // the recovered log must give the same state (done for EVERY crash point)
                 let mut recovered = recovered;
                 recovered.driver.close()?;
+                match recover_dir(&crash_dir, case.policy) {
+                    Ok(mut again) => {
+                        again.driver.close()?;
+                        if again.state != recovered_state {
+                            return Err(exec.failure(
+                                format!("{where_}: the recovered log changes state on a plain second restart: first recovery {} / after restarting it {}: {}",
+                                    describe_state(&recovered_state), describe_state(&again.state), diff_states(&recovered_state, &again.state).unwrap_or_default()),
+                                "second-restart-differs",
+                                extra(json!({})),
+                            ));
+                        }
+                    }
+                    Err(err) => {
+                        let (msg, signature) = err.into_case_error()?;
+                        return Err(exec.failure(format!("{where_}: restarting the recovered log: {msg}"), signature, extra(json!({}))));
+                    }
+                }
             }
             if recovery_changes {
                 env.class("depth2:recovery-wrote-or-unlinked");
@@ -297,7 +317,6 @@ impl Property for C02 {
             Ok(())
         });
         result?;
-        let _ = recover_dir;
         env.scratch.remove(&dir);
         env.scratch.remove(&crash_dir);
         env.scratch.remove(&crash_dir2);
